@@ -87,6 +87,9 @@ func GetBlocksInSegment(blkSize int) int {
 func NewBlocks(bs int, bts Buffer, fit bool) (*Blocks, error) {
 	// get absolute number of blocks in a segment
 	blksInSegm := GetBlocksInSegment(bs)
+	if blksInSegm < 0 {
+		return nil, fmt.Errorf("incorrect block size=%d, should be a power of 2 less than %d or multiple of it: %w ", bs, os.Getpagesize(), errors.ErrInvalid)
+	}
 	if bs < 0 {
 		return nil, fmt.Errorf("incorrect block size=%d, should multiple on naturanl integer to get %d: %w ", bs, os.Getpagesize(), errors.ErrInvalid)
 	}
